@@ -179,6 +179,19 @@ def eval_step(op, ins, p, entry="method"):
         return [x.phase_sync()]
     if op == "sync_charges":
         return [x.sync_charges()]
+    if op == "qr":
+        return list(sr.linalg.qr(x, stabilized=bool(p.get("stabilized", False))))
+    if op == "svd":
+        return list(sr.linalg.svd(x))
+    if op == "eigh":
+        return list(sr.linalg.eigh(x))
+    if op == "solve":
+        return [sr.linalg.solve(x, ins[1])]
+    if op == "svd_truncated":
+        u, sv, vh = sr.linalg.svd_truncated(
+            x, cutoff=p.get("cutoff", -1.0), cutoff_mode=p.get("cutoff_mode", 4),
+            max_bond=p.get("max_bond", -1), absorb=p.get("absorb", 0))
+        return [u, vh] if sv is None else [u, sv, vh]
     raise RuntimeError(f"impl: unknown op {op}")
 
 
@@ -193,6 +206,9 @@ def _wrap_scalar(a, b, r):
     else:
         out = cls(indices=(), charge=charge, blocks=blocks, **kw)
     return out
+
+
+FLOAT_OPS = {"qr", "svd", "eigh", "solve", "svd_truncated"}
 
 
 def run_prog(env, steps, entry="method"):
@@ -218,5 +234,9 @@ def run_prog(env, steps, entry="method"):
             continue
         for n, v in zip(st["out"], res):
             env[n] = v
-        out.append({"ok": [ser.enc_val(v) for v in res], "_py": res})
+        # results of LAPACK kernels (and everything computed from them) are floats: structure only
+        floaty = st["op"] in FLOAT_OPS or any(n in env.get("__float__", ()) for n in st["in"])
+        if floaty:
+            env["__float__"] = set(env.get("__float__", ())) | set(st["out"])
+        out.append({"ok": [ser.enc_val(v, data=not floaty) for v in res], "_py": res})
     return out, env
